@@ -587,4 +587,8 @@ class ServeMpsMedia(MediaRequestBase):
                 # origin_time += representation.mediaDuration
                 # mod_seg -= representation.num_media_segments
                 # assert mod_seg > 0
+        else:
+            # a request by $Time$: number the fragment by its position in
+            # the source, generate_media_segment() needs a sequence number
+            seg_num = mod_seg
         return SegmentPosition(mod_seg, origin_time, seg_num)
